@@ -132,3 +132,10 @@ claim(
     "Trusted: python ast, bfsa. The numeric content of ECDSA is outside this check (group law clauses under C17); group orders >= 2.",
     "DESIGN.md section 4, C18",
 )
+claim(
+    "C17", "other",
+    "constant audit of the 17 curve parameter sets with the checker's own bignum arithmetic; interval analysis in units of p (canonicity domain) over the Jacobian formula functions; sibling rules over the addition variants and dispatcher; guard normal forms for validation and ECDH; (thorough) polynomial identity checking of the formulas against the affine group law",
+    "Decides: for all 17 short-Weierstrass curves p and n are prime, the curve is non-singular, G lies on it, n*G is infinity and the cofactor satisfies Hasse's bound (literals folded from ecdsa.py, checker's own arithmetic); every zero test in the Jacobian formula functions and the dispatcher is applied to a value that lies strictly inside (-p, p) given X, Z in [0, p) and Y in (-p, p), every returned coordinate is reduced, only Y is ever negated -- so points are recognised as equal / infinite regardless of their integer representation; all four addition variants divert equal operands to doubling before the generic formula, the dispatcher handles both infinity operands and every Z shape, public operations map Y3 = 0 or Z3 = 0 to INFINITY; ECDH refuses missing keys, differing curves and an infinite result, keys on another curve are refused before being stored, a failing square root becomes MalformedPointError; the public-key validation chain of C09. Thorough tier: the six formula functions equal the chord/tangent law as identities of rational functions (reductions dropped). Not decided: agreement with OpenSSL, executed group enumeration, equality of ECDH secrets as values.",
+    "Trusted: python ast, bfsa, bfsa.constaudit; sympy (tooling venv) as polynomial normaliser in the thorough tier. Callers pass canonical integers to the low-level point constructors.",
+    "DESIGN.md section 4, C17",
+)
